@@ -30,6 +30,7 @@ from pyvc.values import SInt, SBool, SObj, SOpaque, STerm, Sym, Unsupported, PyR
 from pyvc.nparr import Vec, Numpy, qforall, I
 from pyvc.ops import ClassRef
 from pyvc import ops, lemmas
+from pyvc.native import NativeBounded
 from contracts.C13 import InlineFn
 
 PROP = 'C11'
@@ -490,8 +491,22 @@ class AxisInverse(Contract):
                 ('ielem-in-range', z3.And(0 <= zint(S.y), zint(S.y) < S.j - S.i))]
 
 
+class ChainTake(NativeBounded):
+    """take() of a chained PointsSequence / References container (the compressed containers topologies and samples are built from):
+    item k of the result is item indices[k] -- for every index array, sorted or not.  BOUNDED native enumeration (chains of <= 5
+    distinct items, every index array of length <= 4).  On the pinned commit indices alternating between the two parts were silently
+    reordered (repaired, known_findings.json)."""
+    prop = PROP
+    fn = 'pointsseq:_Chain.take'
+    label = 'native-enumeration'
+    bounded = 'exhaustive native enumeration: chains of <= 5 pairwise distinct items, every index array of length <= 4 (points) / <= 3 (references)'
+    module = 'c11'
+    call = 'chain_take()'
+    clauses = ('points-take-keeps-the-order-of-the-indices', 'references-take-keeps-the-order-of-the-indices')
+
+
 def contracts():
-    cs = []
+    cs = [ChainTake()]
     for t in (0, 2):
         cs += [IndexLookup(t), MaskedLookup(t), ReorderedLookup(t), UniformDerivedLookup(t), DerivedLookup(t)]
     cs += [ChainedLookup(0), ChainedLookup(2), IndexLookupNegative(), IndexLookupForeign(), MaskedForeign(), AxisInverse('unmap-after-map'), AxisInverse('map-after-unmap')]
